@@ -4,13 +4,14 @@ PROP = dict(
   obligations=['vhm.bs.*', 'vhm.emplace.iff_absent', 'vhm.emplace.pool', 'vhm.emplace.publish_order', 'vhm.grow.publish_order', 'vhm.emplace.retry_state', 'vhm.extract.iff_present', 'vhm.extract.pool',
                'vhm.erase.retires_only_removed', 'vhm.ops.unlock', 'vhm.ops.frame', 'vhm.remove.version_bumped', 'vhm.alloc_ext.pops_free', 'vhm.free_ext.own_bucket',
                'vhm.lock_bucket.acquired', 'vhm.grow.resize_lock', 'vhm.grow.conserves', 'vhm.get.validated', 'vhm.get.absent_validated', 'vhm.get.terminates',
-               'vhm.get.seq_lookup', 'vhm.sync.release', 'vhm.sync.acquire', 'static.vhm.no_use_after_move'],
+               'vhm.get.seq_lookup', 'vhm.acc.names_item', 'vhm.sync.release', 'vhm.sync.acquire', 'static.vhm.no_use_after_move'],
   explanation='bucket_state algebra for all 2^32 states; per-bucket map refinement of do_get_or_emplace / do_extract / erase / extract / do_grow / extension-item pool on the extracted text in '
-              'two storage modes (trivial; non-trivial keys with symbolic, adversarially colliding hashes); the writer guarantee "every removal or move is published by a version bump / delete marker" '
+              'all five storage modes, each with the real text of its vyukov_hash_map_traits specialisation (trivial; non-trivial key+value in a node with symbolic, adversarially colliding hashes; trivial key with the value in a node; managed_ptr value with a trivial key; managed_ptr value with the key in a node), including what erase (retires node and Value object) and extract (retires the node only) hand to the reclaimer; the writer guarantee "every removal or move is published by a version bump / delete marker" '
               '(vhm.remove.version_bumped) is proved for the writers and is exactly the rely under which the lock-free reader try_get_value is verified in INT mode. Cross-bucket/thread linearizability is the assumed lemma.',
   assumptions=['composition across buckets, blocks and threads (linearizability) is a lemma, not machine checked',
                'supporting static fact (clang-tidy bugprone-use-after-move, unit cxxstatic): heuristic, covers std::move semantics dropped by the C lowering',
-               'managed_ptr and trivial-key/non-trivial-value traits specialisations are not lowered (F13 shown natively for them); keys/values are 16-bit words standing for any type',
+               'keys/values are 16-bit words standing for any type; managed_ptr modes: Value objects under different keys are distinct and non-null',
+               'the emplace / get_or_emplace / get_or_emplace_lazy wrappers only build lambdas around do_get_or_emplace and are not lowered (Factory/Callback are harness hooks); the destructor is not under contract',
                'writers proved on a one-bucket block; do_grow with one old bucket into two new; extension chain <= 2 (thorough 3), pool 4',
                'no version wrap (2^27) within one try_get_value call; INT mode sequentially consistent'],
   trusted_base=[],
